@@ -106,9 +106,8 @@ class Kernel:
                     continue
                 if ndefs == 1:
                     self.uf.union(name, norm_extent(val))
-            elif isinstance(s, ast.Assert):
-                cs = conjuncts(s.test, True) or []
-                for c in cs:
+            elif isinstance(s, (ast.Assert, ast.If)):
+                for c in guard_facts(s):
                     if isinstance(c, Cmp) and c.op is ast.Eq:
                         self.uf.union(norm_extent(c.lhs), norm_extent(c.rhs))
 
@@ -320,17 +319,28 @@ def _index_ok(k, node, buf, dim, e, wrap):
     return False, 'index expression %s is outside the analysed vocabulary' % u(e)
 
 
+def guard_facts(s):
+    """Atomic facts that hold after statement s on every path that continues:
+    the conjuncts of an assert, or of the negated test of `if <test>: raise`
+    (no else, body ends in raise)."""
+    if isinstance(s, ast.Assert):
+        return conjuncts(s.test, True) or []
+    if isinstance(s, ast.If) and not s.orelse and s.body and isinstance(s.body[-1], ast.Raise):
+        return conjuncts(s.test, False) or []
+    return []
+
+
 def _data_guards(k, src, buf, dim, node):
     """Dominating asserts `src.max() < N` (N == extent) and `src.min() >= 0`."""
     fi = k.fi
     stmt = fi.stmt(node)
     upper = lower = False
     for s in fi.cfg.nodes:
-        if not isinstance(s, ast.Assert):
+        if not isinstance(s, (ast.Assert, ast.If)):
             continue
         if not fi.cfg.dominates(s, stmt):
             continue
-        for c in conjuncts(s.test, True) or []:
+        for c in guard_facts(s):
             if not isinstance(c, Cmp):
                 continue
             less = c.as_less()
